@@ -34,7 +34,9 @@ let handle (f : string list) : string =
   | ["attr_dq_ok"; h] -> bool_s (attr_dq_ok (bytes_of_hex h))
   | ["attr_sq_ok"; h] -> bool_s (attr_sq_ok (bytes_of_hex h))
   | ["attr_unq_ok"; h] -> bool_s (attr_unq_ok (bytes_of_hex h))
+  | ["attr_unq_first_ok"; h] -> bool_s (attr_unq_first_ok (bytes_of_hex h))
   | ["js_string_ok"; h] -> bool_s (js_string_ok (bytes_of_hex h))
+  | ["json_string_ok"; h] -> bool_s (json_string_ok (bytes_of_hex h))
   | ["css_string_ok"; h] -> bool_s (css_string_ok (bytes_of_hex h))
   | ["query_ok"; h] -> bool_s (query_ok (bytes_of_hex h))
   | [fn; h] ->
